@@ -282,15 +282,16 @@ func (ds *Dataset) StoreEntities(entities []*Entity) (Error error) {
 		return nil
 	}
 
-	verifhook.LockWait("ds:" + ds.ID)
+	lockName := "ds:" + ds.ID // read once: a rename may change ds.ID as soon as the lock is released
+	verifhook.LockWait(lockName)
 	ds.WriteLock.Lock()
-	verifhook.LockHeld("ds:" + ds.ID)
+	verifhook.LockHeld(lockName)
 	writeLockStart := time.Now()
 	// release lock at end regardless
 	defer func() {
 		_ = ds.store.statsdClient.Timing("ds.writeLock.time", time.Since(writeLockStart), tags, 1)
 		ds.WriteLock.Unlock()
-		verifhook.LockFree("ds:" + ds.ID)
+		verifhook.LockFree(lockName)
 	}()
 
 	// a handle resolved before the dataset was deleted must not write any more: the data would be stored under
